@@ -19,6 +19,7 @@ CHECKS = {
     "C11": ("c11", {}),
     "C05": ("c05", {}),
     "C06": ("c06", {}),
+    "C08": ("c08", {}),
 }
 
 
